@@ -220,9 +220,44 @@ def structural_selection(viol):
     return res, checked, len(has_rule)
 
 
+def rules_summary(r):
+    """Mechanism model of the structural linear-algebra rules (spec/LinalgRules.tla, MC_LinalgRules.tla): which
+    rule fires for inv / slogdet / diag / trace / cholesky / plu on every enumerated structured tree and the tree it
+    returns; TLC proves each rule is the algebraic identity under the guard the code uses (InvRuleSound,
+    InvGuardComplete, DetRuleSound, DiagRuleSound, TraceRuleSound, PluRuleSound, CholRuleSound; 12 mutant negative
+    controls).  The rules the real code fires (recorded on plum) and the skeleton of its result are compared with the
+    model: a difference is MODEL-DRIFT (reported, not a violation: memory is what decides C19)."""
+    if r.get("model_error"):
+        raise tla.TLCError("MC_LinalgRules: " + str(r["model_error"])[:3000])
+    if r.get("negative_controls_failed"):
+        raise tla.TLCError(f"MC_LinalgRules: {r['negative_controls_failed']} negative control(s) were not rejected")
+    drift = r.get("drift") or []
+    cov = {"rules_model_states": r.get("distinct"), "rules_model_generated": r.get("states"),
+           "rules_calls_compared_with_real_code": r.get("compared"), "rules_drift": r.get("drift_count", len(drift)),
+           "rules_fired": r.get("rules_fired"), "rules_never_fired": r.get("rules_never_fired"),
+           "rules_negative_controls_rejected": r.get("negative_controls"),
+           "rules_unmodelled_calls": r.get("unmodelled_calls"),
+           "rules_drift_examples": [str(d)[:300] for d in drift[:5]]}
+    extra = []
+    if drift:
+        extra.append(f"MODEL-DRIFT: the structural rules cola fires differ from LinalgRules.tla in "
+                     f"{r.get('drift_count', len(drift))} call(s), e.g. {str(drift[0])[:300]}")
+    return cov, extra
+
+
 def run(tier):
     t0 = time.time()
     viol = []
+    sub = common.SubprocPhase("rulesfam").start(tier)
+    try:
+        return _run(tier, t0, viol, sub)
+    except BaseException:
+        if sub.proc.poll() is None:
+            sub.proc.kill()
+        raise
+
+
+def _run(tier, t0, viol, sub):
     dres, checked, nrules = structural_selection(viol)
     cat = cost_catalog()
     wd = tla.make_build_dir(PROP)
@@ -268,8 +303,12 @@ def run(tier):
            "exhaustive": False, "cost_cases": len(cat), "structural_rule_pairs": nrules, "lattice_calls_checked": checked,
            "measurements": [{k: m[k] for k in ("name", "entry", "peak_bytes", "wall_s")} for m in results],
            "budgets": {n: {"bound_elems": b["bound"], "work_elems": b["work"], "dense_ki": b["dense_ki"]} for n, b in budget.items()},
-           "checker_cmd": "tlc MC_Cost.tla (Cost.tla + generated CostCatalog.tla) ; tlc MC_Dispatch.tla (RT_Structural)"}
-    return common.finish(PROP, tier, t0, cov, viol, [
+           "checker_cmd": "tlc MC_Cost.tla (Cost.tla + generated CostCatalog.tla) ; tlc MC_Dispatch.tla (RT_Structural) ; "
+                          "tlc MC_LinalgRules.tla"}
+    rcov, extra = rules_summary(sub.finish())
+    cov.update(rcov)
+    cov["states"] += rcov["rules_model_states"] or 0
+    return common.finish(PROP, tier, t0, cov, viol, extra_print=extra, assumptions=[
         "peak memory is tracemalloc's peak of traced allocations (NumPy reports its buffers to tracemalloc) during the "
         "call, minus the level before it; it may exceed TLC's element budget by a factor 4 plus 3 MiB",
         "wall time is recorded, never asserted", "NumPy backend only"])
